@@ -25,7 +25,7 @@ EXTENDS Integers, Sequences, FiniteSets, TLC
 
 CONSTANTS DocRewrite, DocHeader, DocRedirect,  \* action names read from the docs
           DocVars,                             \* variable names read from mod_header.md
-          Keys,                                \* query keys, subset of {"a","b","c"}
+          Keys,                                \* query keys, subset of {"a","b","c","ab","ba"}
           MaxPairs                             \* query length bound
 
 RewriteCmds  == {"HOST_SET", "HOST_SET_FROM_PATH_PREFIX", "HOST_SUFFIX_REPLACE",
@@ -52,19 +52,21 @@ IsPrefix(a, b) == Len(a) <= Len(b) /\ SubSeq(b, 1, Len(a)) = a
 IsSuffix(a, b) == Len(a) <= Len(b) /\ SubSeq(b, Len(b) - Len(a) + 1, Len(b)) = a
 
 (* ------------------------------ query ------------------------------ *)
-EncKey == [a |-> "%61", b |-> "%62", c |-> "%63", url |-> "%75rl"]
+\* keys "ab" / "ba" contain the keys "a" and "b" as prefix / suffix: an edit that looks for a
+\* key by substring instead of by whole (decoded) key shows up on them
+EncKey == [a |-> "%61", b |-> "%62", c |-> "%63", ab |-> "%61b", ba |-> "b%61", url |-> "%75rl", url2 |-> "url%32"]
 Spell(k, enc) == IF enc THEN EncKey[k] ELSE k
 PairStr(p) == Spell(p.k, p.enc) \o (IF p.eq THEN "=" \o p.v ELSE "")
 QStr(q) == Join([i \in DOMAIN q |-> PairStr(q[i])], "&")
 Pair(k, enc, eq, v) == [k |-> k, enc |-> enc, eq |-> eq, v |-> v, dv |-> v]
 
-Pairs == {Pair(k, e, TRUE, v) : k \in Keys, e \in BOOLEAN, v \in {"1", "2"}}
+Pairs == {Pair(k, e, TRUE, v) : k \in Keys, e \in BOOLEAN, v \in {"1", "a"}}    \* a value may look like a key
            \cup {Pair(k, e, FALSE, "") : k \in Keys, e \in BOOLEAN}
 Queries == UNION {[1..n -> Pairs] : n \in 0..MaxPairs}
 
 \* the decoded view a backend has of a query string: key -> ordered list of values
 Vals(q, k) == LET f == SelectSeq(q, LAMBDA p : p.k = k) IN [i \in DOMAIN f |-> f[i].dv]
-AllKeys == {"a", "b", "c", "n", "url"}
+AllKeys == {"a", "b", "c", "ab", "ba", "n", "url", "url2"}
 QMap(q) == [k \in AllKeys |-> Vals(q, k)]
 HasKey(q, k) == \E i \in DOMAIN q : q[i].k = k
 
@@ -134,7 +136,7 @@ JudgedVars == {"bfe_client_ip", "bfe_cip", "bfe_client_port", "bfe_request_host"
 ASSUME JudgedVars \subseteq DocVars
 
 HdrT == "X-Bfe-T"          \* the header the action names
-HdrO == "X-Other"          \* a bystander that must not change
+HdrO == "X-Bfe-T-Other"    \* a bystander (its name contains the other name) that must not change
 HdrInit == {<<>>, <<"u">>, <<"u", "v">>}
 HSet(old, v) == <<v>>
 HAdd(old, v) == Append(old, v)
@@ -176,6 +178,10 @@ HostCases ==
     {RW("HOST_SUFFIX_REPLACE", <<"example.info", "example.net">>, r.form \o "/nomatch", All, r,
         HostStr(r.host), PathStr(r.path), r.q) : r \in rs}
     \cup
+    \* the text occurs in the host but not at its end: nothing to replace
+    {RW("HOST_SUFFIX_REPLACE", <<HostStr(SubSeq(r.host, 1, 2)), "example.net">>, r.form \o "/not-at-end", All, r,
+        HostStr(r.host), PathStr(r.path), r.q) : r \in {x \in rs : Len(x.host) = 3}}
+    \cup
     \* a suffix that cuts a label in two: not defined by the document (gray); mechanism = string suffix
     {RW("HOST_SUFFIX_REPLACE", <<"ample.com", "ample.net">>, r.form \o "/partial-label", {}, r,
         HostStr(SubSeq(r.host, 1, Len(r.host) - 2)) \o (IF Len(r.host) > 2 THEN "." ELSE "") \o "example.net",
@@ -216,6 +222,10 @@ PathCases ==
        : z \in {y \in [r : rs, k : 1..3] : y.r.path[1] # "" /\ y.k <= Len(y.r.path)}}
     \cup
     {RW("PATH_PREFIX_TRIM", <<"/zz">>, "nomatch", All, r, HostStr(r.host), PathStr(r.path), r.q) : r \in rs}
+    \cup
+    \* the text occurs in the path but not at its start: nothing to trim
+    {RW("PATH_PREFIX_TRIM", <<"/" \o r.path[2]>>, "not-at-start", All, r, HostStr(r.host), PathStr(r.path), r.q)
+       : r \in {x \in rs : Len(x.path) >= 2 /\ x.path[2] # "" /\ x.path[2] # x.path[1]}}
     \cup
     \* prefix ending inside a segment ("/a" against "/ab/c"): gray; mechanism = string prefix
     {RW("PATH_PREFIX_TRIM", <<"/a">>, "partial-segment", {}, r, HostStr(r.host), "/b/c", r.q)
@@ -282,7 +292,8 @@ RD(cmd, params, class, judge, r, url, code) ==
     Case("redirect", cmd, params, class, judge, r, HostStr(r.host), PathStr(r.path), r.q, r.hdr, r.rhdr, url, code)
 Uri(r) == PathStr(r.path) \o (IF Len(r.q) = 0 THEN "" ELSE "?" \o QStr(r.q))
 UrlPair(enc, v, dv) == [k |-> "url", enc |-> enc, eq |-> TRUE, v |-> v, dv |-> dv]
-RedirQueries == {<<>>, <<Pair("a", FALSE, TRUE, "1")>>, <<Pair("a", FALSE, TRUE, "1"), Pair("b", TRUE, FALSE, "")>>}
+RedirQueries == {<<>>, <<Pair("a", FALSE, TRUE, "1")>>, <<Pair("a", FALSE, TRUE, "1"), Pair("b", TRUE, FALSE, "")>>,
+                 <<Pair("url2", FALSE, TRUE, "https://decoy.example.org/"), Pair("url2", TRUE, TRUE, "x")>>}   \* a name that contains "url"
 Codes == {301, 302}
 
 RedirectCases ==
